@@ -92,6 +92,10 @@ func (idx *KVIndex) ListFields() []string {
 // AddDoc adds new document to the index
 func (idx *KVIndex) AddDoc(docID string, value map[string]interface{}) error {
 	err := idx.KV.Update(func(tx kvi.KVTransaction) error {
+		//a document that is added again replaces its previous version
+		if err := idx.removeDocRecordTx(tx, docID); err != nil {
+			return err
+		}
 		return idx.AddDocTx(tx, docID, value)
 	})
 	if err != nil {
@@ -100,7 +104,10 @@ func (idx *KVIndex) AddDoc(docID string, value map[string]interface{}) error {
 	return nil
 }
 
-// AddDocTx add new document using a transaction provided by user
+// AddDocTx add new document using a transaction provided by user. It only writes: the
+// entries of a previous version of the document stay in the index, callers that add a
+// document id again have to remove the previous version first (AddDoc does, kvgraph
+// uses RemoveDocTx)
 func (idx *KVIndex) AddDocTx(tx kvi.KVBulkWrite, docID string, doc map[string]interface{}) error {
 	sdoc := Doc{Entries: [][]byte{}}
 	docKey := DocKey(docID)
@@ -227,63 +234,69 @@ func (idx *KVIndex) RemoveDocTx(tx kvi.KVTransaction, docID string, doc map[stri
 	return nil
 }
 
-// RemoveDoc removes a document from the index: TODO
+// RemoveDoc removes a document from the index
 func (idx *KVIndex) RemoveDoc(docID string) error {
 	err := idx.KV.Update(func(tx kvi.KVTransaction) error {
-		log.WithFields(log.Fields{"document_id": docID}).Debug("KVIndex: deleting document")
-		docKey := DocKey(docID)
-		data, err := tx.Get(docKey)
-		if err != nil {
-			return nil
-		}
-		doc := Doc{}
-		err = proto.Unmarshal(data, &doc)
-		if err != nil {
-			return fmt.Errorf("failed to unmarshal document: %v", err)
-		}
-		for _, entryKey := range doc.Entries {
-			if _, err := tx.Get(entryKey); err != nil {
-				//the entry is gone already: its field was removed after the document was added
-				continue
-			}
-			field, ttype, term, _ := EntryKeyParse(entryKey)
-			termKey := TermKey(field, ttype, term)
-			//get the count while the entry is still there: a recount has to include it
-			if count, err := idx.termGetCount(tx, field, ttype, term); err == nil {
-				err = tx.Delete(entryKey)
-				if err != nil {
-					return fmt.Errorf("failed to delete entry %s: %v", entryKey, err)
-				}
-				if count > 0 {
-					count = count - 1
-				}
-				//if count == 0, then the term should be removed from the index
-				if count == 0 {
-					err = tx.Delete(termKey)
-					if err != nil {
-						return fmt.Errorf("failed to delete term key %s: %v", termKey, err)
-					}
-				} else {
-					buf := make([]byte, binary.MaxVarintLen64)
-					binary.PutUvarint(buf, count)
-					err = tx.Set(termKey, buf)
-					if err != nil {
-						return fmt.Errorf("failed to set term key %s: %v", termKey, err)
-					}
-				}
-			} else {
-				return fmt.Errorf("Termcount Error: %s", err)
-			}
-		}
-
-		err = tx.Delete(docKey)
-		if err != nil {
-			return fmt.Errorf("failed to delete document %s: %v", docKey, err)
-		}
-		return nil
+		return idx.removeDocRecordTx(tx, docID)
 	})
 	if err != nil {
 		return fmt.Errorf("RemoveDoc call failed: %v", err)
+	}
+	return nil
+}
+
+// removeDocRecordTx removes the entries that the stored entry list of a document names,
+// inside the transaction of the caller
+func (idx *KVIndex) removeDocRecordTx(tx kvi.KVTransaction, docID string) error {
+	log.WithFields(log.Fields{"document_id": docID}).Debug("KVIndex: deleting document")
+	docKey := DocKey(docID)
+	data, err := tx.Get(docKey)
+	if err != nil {
+		return nil
+	}
+	doc := Doc{}
+	err = proto.Unmarshal(data, &doc)
+	if err != nil {
+		return fmt.Errorf("failed to unmarshal document: %v", err)
+	}
+	for _, entryKey := range doc.Entries {
+		if _, err := tx.Get(entryKey); err != nil {
+			//the entry is gone already: its field was removed after the document was added
+			continue
+		}
+		field, ttype, term, _ := EntryKeyParse(entryKey)
+		termKey := TermKey(field, ttype, term)
+		//get the count while the entry is still there: a recount has to include it
+		if count, err := idx.termGetCount(tx, field, ttype, term); err == nil {
+			err = tx.Delete(entryKey)
+			if err != nil {
+				return fmt.Errorf("failed to delete entry %s: %v", entryKey, err)
+			}
+			if count > 0 {
+				count = count - 1
+			}
+			//if count == 0, then the term should be removed from the index
+			if count == 0 {
+				err = tx.Delete(termKey)
+				if err != nil {
+					return fmt.Errorf("failed to delete term key %s: %v", termKey, err)
+				}
+			} else {
+				buf := make([]byte, binary.MaxVarintLen64)
+				binary.PutUvarint(buf, count)
+				err = tx.Set(termKey, buf)
+				if err != nil {
+					return fmt.Errorf("failed to set term key %s: %v", termKey, err)
+				}
+			}
+		} else {
+			return fmt.Errorf("Termcount Error: %s", err)
+		}
+	}
+
+	err = tx.Delete(docKey)
+	if err != nil {
+		return fmt.Errorf("failed to delete document %s: %v", docKey, err)
 	}
 	return nil
 }
